@@ -105,6 +105,12 @@ def semis (s : String) : List String := if s = "-" ∨ s = "" then [] else s.spl
 def natList (l : List Nat) : String := if l.isEmpty then "-" else ",".intercalate (l.map toString)
 def nameList (l : List String) : String := if l.isEmpty then "-" else ",".intercalate (l.map showName)
 
+/-- heights are printed as Go prints an int64 (the matching answer of a snapshot at height ≥ 2^63
+is a negative `LastBlockHeight`) -/
+def asInt64 (h : Int) : Int :=
+  let m := h % 18446744073709551616
+  if m ≥ 9223372036854775808 then m - 18446744073709551616 else m
+
 def showEv : Ev → String
   | .provAppHash h => s!"ph:{h}"
   | .provState h => s!"ps:{h}"
@@ -113,7 +119,7 @@ def showEv : Ev → String
   | .apply i b p r rf rs => s!"A:{i}:{hexOrDash b}:{showName p}:{showApplyRes r}:{natList rf}:{nameList rs}"
   | .info .error => "I:err"
   | .info .echo => "I:echo"
-  | .info (.info v h ht) => s!"I:{v}:{hexOrDash h}:{ht}"
+  | .info (.info v h ht) => s!"I:{v}:{hexOrDash h}:{asInt64 ht}"
   | .arriveChunk c r => s!"c:{showName c.sender}:{c.height}:{c.format}:{c.index}:{showBody c.body}={showArr r}"
   | .arriveSnap p s a =>
     s!"s:{showName p}:{s.height}:{s.format}:{s.chunks}:{hexOrDash s.hash}:{hexOrDash s.metadata}={a}"
